@@ -239,25 +239,35 @@ class BoundaryGen:
 
 # ------------------------------------------------------------------ building real classes
 
-def build_tree(decl, ctx, mapper_table=None, fast=False, non_fast=()):
-    """build every non-inline class of `decl` bottom-up (mapper / FastSerializable included)"""
+def build_tree(decl, ctx, mapper_table=None, fast=False, non_fast=(), split=None):
+    """build every non-inline class of `decl` bottom-up (mapper / FastSerializable included);
+    `split=k`: the top class is declared as a subclass: its first k fields live in a parent class"""
     mapper_table = mapper_table or {}
 
-    def build_one(d):
+    def build_one(d, split=None):
+        bases = (Structure, FastSerializable) if (fast and d["name"] not in non_fast) else (Structure,)
+        fields = list(d["fields"])
+        if split:
+            parent = make(d, d["name"] + "Base", fields[:split], bases, None)
+            ctx.parent_class = parent
+            cls = make(d, d["name"], fields[split:], (parent,), None)
+        else:
+            cls = make(d, d["name"], fields, bases, real_mapper(mapper_table.get(d["name"]), d))
+        ctx.classes[d["name"]] = cls
+        return cls
+
+    def make(d, name, fields, bases, m):
         body = {}
-        for n, fd in d["fields"]:
+        for n, fd in fields:
             body[n] = dump.build_field(fd, ctx, _imm=n in d.get("immFields", []), **dump._default_kw(d, n, ctx))
-        body["_required"] = list(d["required"])
+        names = [n for n, _ in fields]
+        body["_required"] = [r for r in d["required"] if r in names]
         body["_additional_properties"] = bool(d.get("addl", True))
         if d.get("ignoreNone"):
             body["_ignore_none"] = True
-        m = real_mapper(mapper_table.get(d["name"]), d)
         if m is not None:
             body["_serialization_mapper"] = m
-        bases = (Structure, FastSerializable) if (fast and d["name"] not in non_fast) else (Structure,)
-        cls = type(d["name"], bases, body)
-        ctx.classes[d["name"]] = cls
-        return cls
+        return type(name, bases, body)
 
     def walk(d):
         if isinstance(d, dict):
@@ -265,7 +275,7 @@ def build_tree(decl, ctx, mapper_table=None, fast=False, non_fast=()):
                 for _, fd in d["fields"]:
                     walk(fd)
                 if not d.get("inline") and d["name"] not in ctx.classes:
-                    build_one(d)
+                    build_one(d, split if d is decl else None)
                 return
             for v in d.values():
                 walk(v)
@@ -327,6 +337,30 @@ def map_doc(d, doc, table, outer=(), cascade=False):
     return doc
 
 
+def dup_set_elems(rng, d, doc, p=0.5):
+    """repeat an element in the JSON arrays of Set fields (a JSON array may list an element twice)"""
+    if d is None or not isinstance(doc, dict):
+        return doc
+    k = d["k"]
+    if k == "struct" and "m" in doc:
+        fd = dict((n, f) for n, f in d["fields"])
+        return {"m": [[kk, dup_set_elems(rng, fd.get(kk), v, p)] for kk, v in doc["m"]]}
+    if k == "setOf" and "l" in doc:
+        xs = [dup_set_elems(rng, d["item"], x, p) for x in doc["l"]]
+        if xs and rng.random() < p:
+            xs.insert(rng.randrange(len(xs) + 1), copy.deepcopy(rng.choice(xs)))
+        return {"l": xs}
+    if k in ("seqOf", "tupleOf") and "l" in doc:
+        return {"l": [dup_set_elems(rng, d["item"], x, p) for x in doc["l"]]}
+    if k == "mapOf" and "m" in doc:
+        return {"m": [[kk, dup_set_elems(rng, d["val"], v, p)] for kk, v in doc["m"]]}
+    if k == "anyOf":
+        for opt in d["fields"]:
+            if opt["k"] == "struct" and "m" in doc or opt["k"] in ("seqOf", "setOf") and "l" in doc:
+                return dup_set_elems(rng, opt, doc, p)
+    return doc
+
+
 def inject_nulls(rng, d, doc, p=0.25):
     """add `key: null` for some absent non-required fields of class-level objects"""
     if d is None or not isinstance(doc, dict):
@@ -377,6 +411,7 @@ def gen_trusted(rng, tier, n_classes):
             doc = S.dedupe_doc(doc)
             if rng.random() < 0.5:
                 doc = inject_nulls(rng, cls, doc)
+            doc = dup_set_elems(rng, cls, doc)
             variants = [("image", doc)]
             if rng.random() < 0.25:
                 variants.append(("corrupt", S.dedupe_doc(S.corrupt_doc(rng, doc))))
@@ -442,10 +477,22 @@ def gen_fast(rng, tier, n_classes):
                 for compact in (False, True):
                     if sn and compact and rng.random() < 0.5:
                         continue
+                    # how the serializer comes to exist: an explicit create_serializer call (the only way to pass
+                    # flags), implicitly at the first instantiation, or implicitly for a SUBCLASS whose parent class
+                    # already has its own serializer (parent instantiated / create_serializer(parent) first)
+                    hist, extra = "explicit", {}
+                    if not sn and not compact:
+                        r = rng.random()
+                        if r < 0.25:
+                            hist = "implicit"
+                        elif r < 0.7 and len(cls["fields"]) >= 2 and cls["name"] not in table:
+                            hist = "inherit"
+                            extra = {"split": rng.randint(1, len(cls["fields"]) - 1),
+                                     "parentFirst": rng.choice(["instantiate", "create"])}
                     cases.append({"suite": "shortcut", "mode": "fast", "cls": cls, "kw": kw, "serializeNone": sn,
-                                  "compact": compact, "nonFast": non_fast,
+                                  "compact": compact, "nonFast": non_fast, "history": hist, **extra,
                                   "mappers": [[n, wire_mapper(m)] for n, m in sorted(table.items())], "mapperSpec": table,
-                                  "stream": f"sn={int(sn)},compact={int(compact)}", "re": gen.re_table(cls, kw)})
+                                  "stream": f"sn={int(sn)},compact={int(compact)},{hist}", "re": gen.re_table(cls, kw)})
     return cases
 
 
@@ -605,10 +652,12 @@ def run_construct(case):
 def run_fast(case):
     decl = case["cls"]
     table = case.get("mapperSpec") or {}
+    hist = case.get("history", "explicit")
+    split = case.get("split") if hist == "inherit" else None
     ctx_f, ctx_p = C.make_ctx(), C.make_ctx()
     try:
-        F = build_tree(decl, ctx_f, table, fast=True, non_fast=case.get("nonFast", ()))
-        P = build_tree(decl, ctx_p, table)
+        F = build_tree(decl, ctx_f, table, fast=True, non_fast=case.get("nonFast", ()), split=split)
+        P = build_tree(decl, ctx_p, table, split=split)
     except Exception as e:
         return {"unbuildable": f"class: {type(e).__name__}: {e}"}
     bad = _check_class(P, decl, ctx_p) or _check_class(F, decl, ctx_f)
@@ -616,23 +665,44 @@ def run_fast(case):
         return bad
     res = {"cls_actual": C.fix_accepts(dump.dump_class(P, ctx_p, order="definition"))}
     try:
-        create_serializer(F, compact=case["compact"], serialize_none=case["serializeNone"])
-        res["created"] = True
-    except Exception as e:
-        res["created"] = False
-        res["create_err"] = f"{C.err_name(e)}: {e}"[:200]
-    try:
         p = P(**{k: dump.load_value(v, ctx_p) for k, v in case["kw"]})
     except Exception as e:
         return {"unbuildable": f"instance: {type(e).__name__}: {e}"}
     res["x"] = _dumpv(p, ctx_p)
     res["regular"] = _ser(p, ctx_p, compact=case["compact"])
-    if res["created"]:
+    try:
+        kw_f = {k: dump.load_value(v, ctx_f) for k, v in case["kw"]}
+    except Exception as e:
+        res["created"] = None
+        res["fast_inst_err"] = f"{C.err_name(e)}: {e}"[:200]    # a nested class that cannot be instantiated
         try:
-            f = F(**{k: dump.load_value(v, ctx_f) for k, v in case["kw"]})
-        except Exception as e:
+            create_serializer(F, compact=case["compact"], serialize_none=case["serializeNone"])
+            res["created"] = True
+        except Exception as e2:
+            res["created"] = False
+        return res
+    try:
+        if hist == "explicit":
+            create_serializer(F, compact=case["compact"], serialize_none=case["serializeNone"])
+        elif hist == "inherit":
+            parent = ctx_f.parent_class
+            if case.get("parentFirst") == "create":
+                create_serializer(parent)
+            else:
+                pnames = set(parent.get_all_fields_by_name())
+                parent(**{k: v for k, v in copy.deepcopy(kw_f).items() if k in pnames})
+        res["created"] = True
+    except Exception as e:
+        res["created"] = False
+        res["create_err"] = f"{C.err_name(e)}: {e}"[:200]
+    try:
+        f = F(**kw_f)           # FastSerializable.__init__ creates the serializer when the class has none of its own
+    except Exception as e:
+        if res["created"]:
+            res["created"] = hist == "explicit"
             res["fast_inst_err"] = f"{C.err_name(e)}: {e}"[:200]
-            return res
+        return res
+    if res["created"]:
         res["x_fast_same"] = dump.canon(_dumpv(f, ctx_f)) == dump.canon(res["x"])
         snap = json.dumps(dump.canon(_dumpv(f, ctx_f)), sort_keys=True)
         try:
